@@ -169,6 +169,8 @@ pub struct HashRec {
     /// random-oracle instance the call was answered by (see `new_oracle`)
     pub oracle: u32,
     pub items: Vec<Item>,
+    /// the bytes as fed to the hash (tokens included)
+    pub raw: Vec<u8>,
     pub raw_len: usize,
     pub digest_var: u32,
     pub label: u32,
@@ -872,7 +874,7 @@ pub fn register_hash(bytes: &[u8]) -> u32 {
         }
         let label = a.cur_label;
         let oracle = a.oracle;
-        a.hashes.push(HashRec { oracle, items, raw_len: bytes.len(), digest_var: dv, label });
+        a.hashes.push(HashRec { oracle, items, raw: bytes.to_vec(), raw_len: bytes.len(), digest_var: dv, label });
         dv
     })
 }
